@@ -138,3 +138,10 @@ Example C08spec_text_kinds :
      "s:a/..///b"; "s:a/..//"; "s:a/.."; "/a/..//b"; "//h/a/..//b"; "S://%41%7e@H%2e:/"; "s://@"; "s://h:";
      "/a/./b/../%7e"; "//h"; "s:"; "/"; "//@:?#"] = true.
 Proof. vm_compute. reflexivity. Qed.
+
+(* the path with the guard of Normal.guard_normal; _partial: behind an authority only (the guard does nothing
+   there); the cases without an authority are tested (C08spec_text_kinds), not proved *)
+Theorem C08spec_guarded_path_idem_partial : forall hs p, forallb pct_wf (split_on 47 p) = true ->
+  guarded_path hs true (guarded_path hs true p) = guarded_path hs true p.
+Proof. exact guarded_path_idem_partial. Qed.
+Print Assumptions C08spec_guarded_path_idem_partial.
